@@ -192,7 +192,11 @@ def run(tier: str) -> int:
                 try:
                     np.random.seed(1)
                     random.seed(1)
-                    A = run_one(driver, table, seed, steps, interner)
+                    # "the same integer seed": also when it is spelled as a numpy integer (an element of a seed array, the
+                    # output of SeedSequence.generate_state) -- run A gets the numpy spelling, run B the Python int
+                    seed_a = (np.uint64(seed) if seed >= 2**63 else np.int64(seed)) if si % 2 == 1 else seed
+                    A = run_one(driver, table, seed_a, steps, interner)
+                    A["seed"] = str(seed)
                     np.random.seed(987654)
                     random.seed("another state")
                     np.random.rand(int(rs.randint(1, 50)))
